@@ -144,3 +144,48 @@ def conditional_evaluates_the_posterior_through_the_conditioning_point(h, d):
             h.eq(f"step {step}.{rep} (variable {i}): value == posterior(conditioning point with x in place {i})", val, F(want))
             h.eq(f"step {step}.{rep} (variable {i}): the posterior was evaluated at that point", calls[-1], want)
             h.eq(f"step {step}.{rep}: caller's conditioning point unchanged", point, np.array(theta, dtype=dt))
+
+
+@unit("C20", quick=[dict(d=1), dict(d=2)], max_paths=4000, cost=5)
+def search_grid_spans_the_bounds_and_contains_the_conditioning_point(h, d):
+    """get_conditionals up to the hand-over to evaluate_conditional (which is replaced by a recorder: a cut, the
+    threshold search itself stays outside reach): for symbolic bounds and a conditioning coordinate anywhere inside them
+    (on a search point, between two, in the first or the last cell), the points handed to the search are ascending, start at
+    the lower bound, end at the upper bound and contain the conditioning coordinate -- necessary for the returned axis to
+    cover the region above threshold on both sides of the conditioning point -- and the function handed over is the
+    conditional of the right variable through the conditioning point"""
+    cd = _mod(h)
+    h.covers(cd.get_conditionals)
+    dt = object if h.sym else float
+    F = h.ufunc("logpost", d)
+    lo = h.real("lo", d)
+    wd = h.real("wd", d, pos=True)
+    frac = [h.real("f0", lo=0, hi=1)] + [0.0 * wd[k] for k in range(1, d)]   # later variables sit on their lower bound
+    theta = np.array([lo[k] + frac[k] * wd[k] for k in range(d)], dtype=dt)
+    bounds = [(lo[k], lo[k] + wd[k]) for k in range(d)]
+    seen = []
+
+    def rec(func, points, grid_size=64, **kw):
+        pts = np.array(points, dtype=dt).copy()
+        x = h.real(f"probe{len(seen)}")
+        seen.append((pts, func(x), x))
+        z = np.array([0.0 * wd[0]] * grid_size, dtype=dt) if h.sym else np.zeros(grid_size)
+        return z, z
+    h.patch(cd, both=True, evaluate_conditional=rec)
+    point0 = np.array(theta, dtype=dt).copy()
+    cd.get_conditionals(posterior=lambda t: F(np.asarray(t)), bounds=bounds, conditioning_point=theta, grid_size=4)
+    h.same("one search per variable", len(seen), d)
+    for k, (pts, val, x) in enumerate(seen[:d]):
+        h.eq(f"variable {k}: search starts at the lower bound", pts[0], lo[k])
+        h.eq(f"variable {k}: search ends at the upper bound", pts[-1], lo[k] + wd[k])
+        for a, b in zip(pts[:-1], pts[1:]):
+            h.le(f"variable {k}: search points ascending", a, b)
+        if h.sym:
+            from symnp.core import R, SymBool
+            h.true(f"variable {k}: the conditioning coordinate is one of the search points", SymBool(z3.Or(*[R(p) == R(theta[k]) for p in pts])))
+        else:
+            h.true(f"variable {k}: the conditioning coordinate is one of the search points", bool(np.any(np.asarray(pts) == theta[k])))
+        want = np.array(point0, dtype=dt)
+        want[k] = x
+        h.eq(f"variable {k}: the function searched is the conditional through the conditioning point", val, F(want))
+    h.eq("caller's conditioning point unchanged", theta, point0)
